@@ -582,29 +582,11 @@ def stream_molecule(ctx):
 
 
 def classify(v):
-    c = v.get('input') or {}
-    if v.get('stream') == 'molecular-data' and isinstance(c.get('geometry'), str) \
-            and v.get('what', '').startswith('MolecularData save/load does not return the atoms attribute'):
-        return 'C20-moldata-named-geometry-atoms'
     return None
 
 
 def probe_known(ctx, k):
-    if k['id'] != 'C20-moldata-named-geometry-atoms':
-        return False
-    from openfermion.chem import MolecularData
-    base = tempfile.mkdtemp(prefix='ofv_c20p_', dir=os.environ.get('TMPDIR'))
-    try:
-        fn = os.path.join(base, 'named')
-        m = MolecularData('water', 'sto-3g', 1, filename=fn)
-        m.save()
-        a = MolecularData(filename=fn).atoms
-        a = a.tolist() if hasattr(a, 'tolist') else a
-        return a != []
-    except Exception:  # noqa: BLE001
-        return True
-    finally:
-        shutil.rmtree(base, ignore_errors=True)
+    return False
 
 
 def coeff_of_text(txt):
